@@ -300,7 +300,7 @@ class SandboxedEnvironment(Environment):
         """Subscribe an object from sandboxed code."""
         try:
             return obj[argument]
-        except (TypeError, LookupError):
+        except (AttributeError, TypeError, LookupError):
             if isinstance(argument, str):
                 # str() of a str subclass runs data code; whatever it raises
                 # belongs to the caller and is not a lookup failure.
@@ -332,7 +332,7 @@ class SandboxedEnvironment(Environment):
         except AttributeError:
             try:
                 return obj[attribute]
-            except (TypeError, LookupError):
+            except (TypeError, LookupError, AttributeError):
                 pass
         else:
             # Check the attribute first: a bound str.format stored
